@@ -22,6 +22,7 @@ let parse_op (tok : string) : op =
   | 'R' -> ORun
   | 'V' -> OWrite2 (parse_lens arg)
   | 'X' -> OCloseSend
+  | 'K' -> OConnect
   | 'N' -> OWriteNomem (parse_lens arg)       (* uv_write while uv__malloc fails *)
   | 'M' -> OWrite2Nomem (parse_lens arg)      (* uv_write2 (send handle) while uv__malloc fails *)
   | _ -> failwith ("bad op " ^ tok)
@@ -42,8 +43,10 @@ let case (line : string) : string =
       let parse_conn c =
         if c = "-" then None else
         match String.split_on_char ':' c with
-        | [k; cres; so] -> Some ((k = "t", cres_of cres), List.map z_of_string (split_on ',' so))
-        | [k; cres] -> Some ((k = "t", cres_of cres), [])
+        | [k; cres; so; cr] ->
+            Some (((k = "t", cres_of cres), List.map z_of_string (split_on ',' so)), List.map cres_of (split_on ',' cr))
+        | [k; cres; so] -> Some (((k = "t", cres_of cres), List.map z_of_string (split_on ',' so)), [])
+        | [k; cres] -> Some (((k = "t", cres_of cres), []), [])
         | _ -> failwith "bad conn" in
       let blk, sa, conn, ipc = match split_on ' ' hd with
         | [b; a] -> (b = "1", z_of_string a, None, false)
@@ -89,7 +92,9 @@ let case (line : string) : string =
             let i = int_of_nat id in
             fd_pending := i;
             add (Printf.sprintf "f%d " i)
-        | EFdFail id -> add (Printf.sprintf "g%d " (int_of_nat id))) (trace s);
+        | EFdFail id -> add (Printf.sprintf "g%d " (int_of_nat id))
+        | EConnect c -> add (Printf.sprintf "K:%s " (string_of_z c))
+        | EReopen -> ()) (trace s);
       add (Printf.sprintf "e%s,%d,1" (BZ.to_string !total) (if s.shut || not s.fdopen then 1 else 0));
       (* descriptors the peer receives, per request: one per accepted sendmsg that carried one *)
       List.iter (fun (i, k) -> add (Printf.sprintf " p%d:%d" i k))
